@@ -13,6 +13,7 @@ open SycVerif.Driver
 def dispatch (line : String) : String :=
   let line := line.trimAscii.toString
   if line.startsWith "isdyn classify " then IsDynRead.handle (line.drop 15).toString else
+  if line.startsWith "hydrate run " then ViewDrv.handleHydrate (line.drop 12).toString else
   if line.startsWith "view run " then ViewDrv.handle (line.drop 9).toString else
   if line.startsWith "async " then AsyncDrv.handle (line.drop 6).toString else
   if line.startsWith "ssr " then SsrDrv.handle ("(" ++ (line.drop 4).toString ++ ")") else
